@@ -406,7 +406,7 @@ var friendly = []int{5000, 20000, 40000, 2500, 50000, 2000, 12500, 8000, 100000,
 var DefaultAccounts = []string{
 	"Assets:Bank:Checking", "Assets:Bank:Savings", "Assets:Bank", "Assets:Portfolio", "Liabilities:Card", "Liabilities:Loan:Car", "Expenses:Food",
 	"Equity:Equity", "Income:Salary", "Income:Gifts:Family", "Expenses:Rent", "Expenses:Food:Groceries", "Expenses:Food:Dining",
-	"Expenses:Trips:Rome:Hotel", "Assets:Bank:CH:Main:Sub", "Expenses:Café:Zürich", "Assets:Bank:Épargne", "Expenses:eatingOut", "Assets:Bank:konto9",
+	"Expenses:Trips:Rome:Hotel", "Assets:Bank:CH:Main:Sub", "Expenses:Café:Zürich", "Assets:Bank:Épargne", "Expenses:eatingOut", "Assets:Bank:konto9", "Assets:FixedAssets:House", "Liabilities:CurrentLiabilities:Card",
 }
 
 // Random builds a well-formed journal (every used account opened before use, no closes
